@@ -194,8 +194,8 @@ impl<T> Router<T> {
         }
 
         if !conflicts.is_empty() {
-            conflicts.dedup();
             conflicts.sort();
+            conflicts.dedup();
 
             return Err(InsertError::Conflict {
                 template: template.to_owned(),
